@@ -414,6 +414,9 @@ func sweepC01(c *mc.Ctx) {
 					shapes = append(shapes, shape{pid, l, hd, af, 0})
 				}
 			}
+			if l <= 400 {
+				shapes = append(shapes, shape{pid, l, "ptseqdts", "", 0}, shape{pid, l, "ptseqdts", "raipcr", 0})
+			}
 		}
 		// payloads made of PES start-code look-alikes, at every phase relative to the packet boundaries
 		for l := 1; l <= 760; l++ {
